@@ -1,0 +1,395 @@
+// Copyright 2025 Anapaya Systems
+//
+// Licensed under the Apache License, Version 2.0 (the "License");
+// you may not use this file except in compliance with the License.
+// You may obtain a copy of the License at
+//
+//   http://www.apache.org/licenses/LICENSE-2.0
+//
+// Unless required by applicable law or agreed to in writing, software
+// distributed under the License is distributed on an "AS IS" BASIS,
+// WITHOUT WARRANTIES OR CONDITIONS OF ANY KIND, either express or implied.
+// See the License for the specific language governing permissions and
+// limitations under the License.
+
+//! Verification hooks (cargo feature `verif-hooks`, off by default).
+//!
+//! Exposes nothing new: a [`PathSetDriver`] owns a real [`MultiPathManager`] with an injected
+//! fetcher and ONE real [`PathSet`] for a (src,dst) pair, registered in the manager exactly as
+//! `ensure_managed_paths` does, but stepped by the caller instead of by the `manage()` task:
+//! `maintain(now)` / `next_maintain(now)` / `handle_issue_rx` are the functions the task calls,
+//! `cached_path` / `path_wait` are the functions senders call. Accessors return plain data.
+
+#![allow(missing_docs, clippy::pedantic)]
+
+use std::{
+    sync::{Arc, Mutex},
+    time::{Duration, SystemTime},
+};
+
+use futures::FutureExt;
+use scion_sdk_utils::backoff::BackoffConfig;
+use sciparse::{
+    identifier::isd_asn::IsdAsn,
+    path::{ScionPath, fingerprint::data_plane::DpPathFingerprint},
+    payload::scmp::model::ScmpErrorMessage,
+};
+
+use super::{
+    MultiPathManager, MultiPathManagerConfig, MultiPathManagerConfigError, MultiPathManagerRef,
+    issues::{IssueKind, SendError},
+    pathset::{PathSet, PathSetHandle, PathSetTask},
+    traits::{PathManager, PathWaitError},
+};
+use crate::{
+    path::{
+        PathStrategy,
+        fetcher::traits::{PathFetchError, PathFetcher},
+    },
+    stack::ScionSocketSendError,
+};
+
+/// All fields of [`MultiPathManagerConfig`] (most have no public setter).
+#[derive(Debug, Clone, Copy)]
+pub struct VerifConfig {
+    pub max_cached_paths_per_pair: usize,
+    pub refetch_interval: Duration,
+    pub min_refetch_delay: Duration,
+    pub min_expiry_threshold: Duration,
+    pub max_idle_period: Duration,
+    /// (minimum_delay_secs, maximum_delay_secs, factor, jitter_secs)
+    pub fetch_failure_backoff: (f32, f32, f32, f32),
+    pub issue_cache_size: usize,
+    pub issue_broadcast_size: usize,
+    pub issue_deduplication_window: Duration,
+    pub path_swap_score_threshold: f32,
+}
+
+impl VerifConfig {
+    /// The values of `MultiPathManagerConfig::default()`.
+    pub fn defaults() -> Self {
+        let d = MultiPathManagerConfig::default();
+        let b = d.fetch_failure_backoff;
+        VerifConfig {
+            max_cached_paths_per_pair: d.max_cached_paths_per_pair,
+            refetch_interval: d.refetch_interval,
+            min_refetch_delay: d.min_refetch_delay,
+            min_expiry_threshold: d.min_expiry_threshold,
+            max_idle_period: d.max_idle_period,
+            fetch_failure_backoff: (
+                b.minimum_delay_secs,
+                b.maximum_delay_secs,
+                b.factor,
+                b.jitter_secs,
+            ),
+            issue_cache_size: d.issue_cache_size,
+            issue_broadcast_size: d.issue_broadcast_size,
+            issue_deduplication_window: d.issue_deduplication_window,
+            path_swap_score_threshold: d.path_swap_score_threshold,
+        }
+    }
+
+    fn to_config(self) -> MultiPathManagerConfig {
+        let (minimum_delay_secs, maximum_delay_secs, factor, jitter_secs) =
+            self.fetch_failure_backoff;
+        MultiPathManagerConfig {
+            max_cached_paths_per_pair: self.max_cached_paths_per_pair,
+            refetch_interval: self.refetch_interval,
+            min_refetch_delay: self.min_refetch_delay,
+            min_expiry_threshold: self.min_expiry_threshold,
+            max_idle_period: self.max_idle_period,
+            fetch_failure_backoff: BackoffConfig {
+                minimum_delay_secs,
+                maximum_delay_secs,
+                factor,
+                jitter_secs,
+            },
+            issue_cache_size: self.issue_cache_size,
+            issue_broadcast_size: self.issue_broadcast_size,
+            issue_deduplication_window: self.issue_deduplication_window,
+            path_swap_score_threshold: self.path_swap_score_threshold,
+        }
+    }
+}
+
+/// What the mock fetcher answers to the next (and every following) `fetch_paths` call.
+#[derive(Debug, Clone)]
+pub enum FetchResult {
+    /// `Ok(paths)` (may be empty)
+    Paths(Vec<ScionPath>),
+    /// `Err(PathFetchError::NoPathsFound)`
+    NoPathsFound,
+    /// `Err(PathFetchError::InternalError(msg))`
+    Error(String),
+}
+
+/// Fetcher whose result is set by the harness; resolves immediately.
+#[derive(Clone)]
+pub struct MockFetcher(Arc<Mutex<MockState>>);
+
+struct MockState {
+    result: FetchResult,
+    requests: usize,
+    /// issues reported to the manager while the next fetch is in flight
+    during_fetch: Vec<(SystemTime, IssueKind)>,
+    manager: Option<MultiPathManagerRef<MockFetcher>>,
+}
+
+impl PathFetcher for MockFetcher {
+    async fn fetch_paths(
+        &self,
+        _src: IsdAsn,
+        _dst: IsdAsn,
+    ) -> Result<Vec<ScionPath>, PathFetchError> {
+        let (result, during, manager) = {
+            let mut guard = self.0.lock().unwrap();
+            guard.requests += 1;
+            let during = std::mem::take(&mut guard.during_fetch);
+            (guard.result.clone(), during, guard.manager.clone())
+        };
+        if let Some(manager) = manager.and_then(|m| m.upgrade()) {
+            for (timestamp, issue) in during {
+                manager.report_path_issue(timestamp, issue);
+            }
+        }
+        match result {
+            FetchResult::Paths(paths) => Ok(paths),
+            FetchResult::NoPathsFound => Err(PathFetchError::NoPathsFound),
+            FetchResult::Error(msg) => Err(PathFetchError::InternalError(msg.into())),
+        }
+    }
+}
+
+/// A path issue as the manager receives it (`IssueKind` is crate-private).
+#[derive(Debug, Clone)]
+pub struct Issue(IssueKind);
+
+impl Issue {
+    /// As `ScmpErrorReceiver::report_scmp_error` builds it.
+    pub fn from_scmp(error: ScmpErrorMessage) -> Self {
+        Issue(IssueKind::Scmp { error })
+    }
+
+    /// As `SendErrorReceiver::report_send_error` builds it (None: error is not path related).
+    pub fn from_send_error(error: &ScionSocketSendError) -> Option<Self> {
+        SendError::from_socket_send_error(error).map(|err| Issue(IssueKind::Socket { err }))
+    }
+
+    /// First-hop send failure (`ScionSocketSendError::UnderlayNextHopUnreachable`).
+    pub fn first_hop_unreachable(isd_asn: IsdAsn, interface_id: u16) -> Self {
+        Issue(IssueKind::Socket {
+            err: SendError::FirstHopUnreachable {
+                isd_asn,
+                interface_id,
+                address: None,
+                msg: "verif".into(),
+            },
+        })
+    }
+}
+
+/// One cached path as plain data.
+#[derive(Debug, Clone)]
+pub struct CachedPathInfo {
+    pub fingerprint: DpPathFingerprint,
+    pub expiration: Option<u32>,
+    /// reliability score decayed to the `now` given to [`PathSetDriver::cached_paths`]
+    pub reliability: f32,
+    /// total score of the configured scorers at that `now`
+    pub score: f32,
+}
+
+/// Owns a manager and one manually stepped path set.
+pub struct PathSetDriver {
+    rt: tokio::runtime::Runtime,
+    mgr: MultiPathManager<MockFetcher>,
+    set: PathSet<MockFetcher>,
+    handle: PathSetHandle,
+    fetcher: MockFetcher,
+    exited: Option<&'static str>,
+}
+
+impl PathSetDriver {
+    /// `MultiPathManager::new` (validates `cfg`) + what `ensure_managed_paths` does for
+    /// (src,dst), with `PathSet::new_with_time(.., now)` and without spawning `manage()`.
+    /// Like `ScionStack`, uses the default scorers.
+    pub fn new(
+        cfg: VerifConfig,
+        mut strategy: PathStrategy,
+        src: IsdAsn,
+        dst: IsdAsn,
+        now: SystemTime,
+    ) -> Result<Self, MultiPathManagerConfigError> {
+        if strategy.scoring.is_empty() {
+            strategy.scoring.use_default_scorers();
+        }
+        let fetcher = MockFetcher(Arc::new(Mutex::new(MockState {
+            result: FetchResult::NoPathsFound,
+            requests: 0,
+            during_fetch: Vec::new(),
+            manager: None,
+        })));
+        let mgr = MultiPathManager::new(cfg.to_config(), fetcher.clone(), strategy)?;
+        fetcher.0.lock().unwrap().manager = Some(mgr.weak_ref());
+        let rt = tokio::runtime::Builder::new_current_thread()
+            .build()
+            .expect("runtime");
+
+        let issue_rx = mgr.0.issue_manager.lock().unwrap().issues_subscriber();
+        let set = PathSet::new_with_time(src, dst, mgr.weak_ref(), mgr.0.config, issue_rx, now);
+        let handle = PathSetHandle {
+            shared: set.shared.clone(),
+        };
+        // The map entry needs a task handle; the real worker is replaced by the caller's steps.
+        let task = PathSetTask {
+            task: rt.spawn(async {}),
+            cancel_token: tokio_util::sync::CancellationToken::new(),
+        };
+        if let scc::hash_index::Entry::Vacant(vacant) = mgr.0.managed_paths.entry_sync((src, dst)) {
+            vacant.insert_entry((handle.clone(), task));
+        }
+
+        Ok(PathSetDriver {
+            rt,
+            mgr,
+            set,
+            handle,
+            fetcher,
+            exited: None,
+        })
+    }
+
+    /// Sets the answer of the fetcher from now on.
+    pub fn set_fetch_result(&self, result: FetchResult) {
+        self.fetcher.0.lock().unwrap().result = result;
+    }
+
+    /// Number of `fetch_paths` calls so far.
+    pub fn fetch_requests(&self) -> usize {
+        self.fetcher.0.lock().unwrap().requests
+    }
+
+    /// `PathSet::next_maintain(now)`.
+    pub fn next_maintain(&self, now: SystemTime) -> Duration {
+        self.set.next_maintain(now)
+    }
+
+    /// The issue is reported to the manager (`report_path_issue`) while the next fetch is in
+    /// flight, i.e. between the start of `fetch_paths` and its completion.
+    pub fn report_during_next_fetch(&self, timestamp: SystemTime, issue: Issue) {
+        let mut guard = self.fetcher.0.lock().unwrap();
+        guard.during_fetch.push((timestamp, issue.0));
+    }
+
+    /// `PathSet::maintain(now, &manager)`, followed by what the next iteration of the `manage()`
+    /// loop does at once: issues still queued (reported during the fetch) go to
+    /// `handle_issue_rx`. On `Some(reason)` the worker would exit: the pair is unregistered
+    /// (`stop_managing_paths`, as the task does) and the driver must not be stepped any further.
+    pub fn maintain(&mut self, now: SystemTime) -> Option<&'static str> {
+        assert!(self.exited.is_none(), "path set task already exited");
+        let reason = self.rt.block_on(self.set.maintain(now, &self.mgr));
+        if reason.is_some() {
+            self.exited = reason;
+            self.mgr.stop_managing_paths(self.set.src, self.set.dst);
+            return reason;
+        }
+        self.deliver_pending_issues(now);
+        self.exited
+    }
+
+    fn deliver_pending_issues(&mut self, now: SystemTime) {
+        while let Some(recv) = self.set.internal.issue_rx.recv().now_or_never() {
+            if let Some(reason) = self.set.handle_issue_rx(now, recv, &self.mgr) {
+                self.exited = Some(reason);
+                self.mgr.stop_managing_paths(self.set.src, self.set.dst);
+                return;
+            }
+        }
+    }
+
+    /// Exit reason of the worker, if it exited.
+    pub fn exited(&self) -> Option<&'static str> {
+        self.exited
+    }
+
+    /// `MultiPathManager::report_path_issue(timestamp, issue)`, then delivery to the path set
+    /// the way the `manage()` loop does: every pending `issue_rx.recv()` goes to
+    /// `handle_issue_rx(now, ..)`.
+    pub fn report_issue(&mut self, timestamp: SystemTime, now: SystemTime, issue: Issue) {
+        self.mgr.report_path_issue(timestamp, issue.0);
+        if self.exited.is_none() {
+            self.deliver_pending_issues(now);
+        }
+    }
+
+    /// `MultiPathManager::cached_path(src, dst, now)`.
+    pub fn cached_path(&self, now: SystemTime) -> Option<ScionPath> {
+        if self.exited.is_some() {
+            return None; // would spawn a fresh worker on the wall clock
+        }
+        self.mgr.cached_path(self.set.src, self.set.dst, now)
+    }
+
+    /// `PathManager::path_wait(src, dst, now)` (what `UdpScionSocket::send_to` calls), polled
+    /// once: `None` = the sender would have to wait for an ongoing/initial fetch.
+    pub fn path_wait(&self, now: SystemTime) -> Option<Result<ScionPath, PathWaitError>> {
+        if self.exited.is_some() {
+            return None;
+        }
+        self.mgr
+            .path_wait(self.set.src, self.set.dst, now)
+            .now_or_never()
+    }
+
+    /// `PathSetHandle::try_active_path()` (marks the pair as used, like a sender).
+    pub fn try_active_path(&self) -> Option<(ScionPath, DpPathFingerprint)> {
+        self.handle.try_active_path().as_deref().cloned()
+    }
+
+    /// Fingerprint in the active slot, without marking the pair as used.
+    pub fn active_fingerprint(&self) -> Option<DpPathFingerprint> {
+        self.set.shared.active_path.load().as_ref().map(|p| p.1)
+    }
+
+    /// Cached paths in cache (rank) order.
+    pub fn cached_paths(&self, now: SystemTime) -> Vec<CachedPathInfo> {
+        (self.set.internal.cached_paths.iter())
+            .map(|e| {
+                CachedPathInfo {
+                    fingerprint: e.path.fingerprint(),
+                    expiration: e.path.expiration(),
+                    reliability: e.reliability.score(now).value(),
+                    score: self.mgr.0.path_strategy.scoring.score(e, now),
+                }
+            })
+            .collect()
+    }
+
+    pub fn next_refetch(&self) -> SystemTime {
+        self.set.internal.next_refetch
+    }
+
+    pub fn next_idle_check(&self) -> SystemTime {
+        self.set.internal.next_idle_check
+    }
+
+    pub fn failed_attempts(&self) -> u32 {
+        self.set.internal.failed_attempts
+    }
+
+    /// (entries in the issue cache, entries in the FIFO backing it)
+    pub fn issue_memory(&self) -> (usize, usize) {
+        let guard = self.mgr.0.issue_manager.lock().unwrap();
+        (guard.cache.len(), guard.fifo_issues.len())
+    }
+
+    /// `PathSetHandle::current_error()` rendered.
+    pub fn current_error(&self) -> Option<String> {
+        self.handle.current_error().map(|e| e.to_string())
+    }
+
+    /// Whether the initial fetch completed.
+    pub fn initialized(&self) -> bool {
+        self.set.shared.sync.lock().unwrap().initialized
+    }
+}
